@@ -112,7 +112,7 @@ fn match_known<'a>(known: &'a [serde_json::Value], prop: Prop, f: &Found, scn: &
     })
 }
 
-fn write_replay(prop: Prop, scn: &Scenario, f: &Found, original: &Scenario, attempts: usize) -> String {
+fn write_replay(prop: Prop, scn: &Scenario, f: &Found, original: &Scenario, attempts: usize, nondeterministic: bool) -> String {
     let dir = "/verif/replays";
     let _ = std::fs::create_dir_all(dir);
     let path = format!("{dir}/{}-seed{}-run{}-{}.json", prop.id(), scn.seed, scn.run_index, f.rule);
@@ -121,6 +121,7 @@ fn write_replay(prop: Prop, scn: &Scenario, f: &Found, original: &Scenario, atte
         "rule": f.rule,
         "message": f.msg,
         "failing_run": f.label,
+        "code_under_test_nondeterministic": nondeterministic,
         "expected_fingerprint": f.fingerprint.to_string(),
         "scenario": scn.to_json(),
         "history_of_failing_run": f.history,
@@ -148,8 +149,15 @@ fn cmd_replay(env: &Env, file: &str) -> i32 {
         None => harness_error("replay file: program not in this catalogue (was it found with a regenerated catalogue? rebuild with PROTOSIM_GENERATED set to the file named in the replay)"),
     }
     let want_fp = j.get("expected_fingerprint").and_then(|f| f.as_str()).unwrap_or("").to_string();
-    let mut st = Stats::default();
-    let found = check(prop, env, &scn, &mut st);
+    let retries = if j.get("code_under_test_nondeterministic").and_then(|b| b.as_bool()).unwrap_or(false) { 200 } else { 1 };
+    let mut found = vec![];
+    for _ in 0..retries {
+        let mut st = Stats::default();
+        found = check(prop, env, &scn, &mut st);
+        if found.iter().any(|f| f.rule == rule) {
+            break;
+        }
+    }
     println!("replay: property={} rule={rule} program={} document={}", prop.id(), scn.program_name, scn.doc.render());
     match found.iter().find(|f| f.rule == rule) {
         Some(f) => {
@@ -339,18 +347,42 @@ fn cmd_check(env: &Env, prop: Prop, args: &[String]) -> i32 {
     let mut reported_rules: Vec<&'static str> = vec![];
     let mut known_printed: Vec<String> = vec![];
     let mut n_violation_lines = 0;
+    let mut unpinned = 0;
     let n_violating_scenarios = violations.len();
     for (_, scn, found) in &violations {
         let f = &found[0];
         if reported_rules.contains(&f.rule) && n_violation_lines + known_printed.len() >= 1 {
             continue;
         }
-        let (min_scn, attempts) = minimise(prop, env, scn, f.rule);
+        let (mut min_scn, attempts) = minimise(prop, env, scn, f.rule);
         let mut st = Stats::default();
         let refound = check(prop, env, &min_scn, &mut st);
+        let mut nondeterministic = false;
         let mf = match refound.iter().find(|x| x.rule == f.rule) {
             Some(x) => x.clone(),
-            None => harness_error("minimised scenario no longer fails: nondeterminism in the harness"),
+            None => {
+                // The harness is a pure function of the scenario (./check determinism), so the code
+                // under test gave two different histories for one scenario: that is itself a
+                // violation (behaviour must depend only on the inputs and the answers so far).
+                // Report the original scenario; its replay is retried since it cannot be exact.
+                nondeterministic = true;
+                min_scn = scn.clone();
+                let mut again = None;
+                for _ in 0..50 {
+                    let mut st = Stats::default();
+                    if let Some(x) = check(prop, env, scn, &mut st).iter().find(|x| x.rule == f.rule) {
+                        again = Some(x.clone());
+                        break;
+                    }
+                }
+                match again {
+                    Some(x) => x,
+                    None => {
+                        unpinned += 1;
+                        continue;
+                    }
+                }
+            }
         };
         if let Some(k) = match_known(&known, prop, &mf, &min_scn) {
             let what = k.get("what").and_then(|w| w.as_str()).unwrap_or("");
@@ -363,7 +395,7 @@ fn cmd_check(env: &Env, prop: Prop, args: &[String]) -> i32 {
             continue;
         }
         reported_rules.push(f.rule);
-        let path = write_replay(prop, &min_scn, &mf, scn, attempts);
+        let path = write_replay(prop, &min_scn, &mf, scn, attempts, nondeterministic);
         // the replay file must reproduce the violation in a fresh process
         let exe = std::env::current_exe().unwrap_or_else(|e| harness_error(&format!("current_exe: {e}")));
         let out = std::process::Command::new(exe).arg("replay").arg(&path).output();
@@ -371,6 +403,9 @@ fn cmd_check(env: &Env, prop: Prop, args: &[String]) -> i32 {
             Ok(o) if o.status.code() == Some(1) => {}
             Ok(o) => harness_error(&format!("replay of {path} in a fresh process did not reproduce the violation (exit {:?})", o.status.code())),
             Err(e) => harness_error(&format!("cannot spawn replay: {e}")),
+        }
+        if nondeterministic {
+            println!("note: the code under test is NOT deterministic for this scenario (same scenario, different histories); the replay file is retried up to 200 times");
         }
         println!("violation: rule={} program={} [{}]", mf.rule, min_scn.program_name, mf.label);
         println!("  {}", mf.msg);
@@ -383,6 +418,9 @@ fn cmd_check(env: &Env, prop: Prop, args: &[String]) -> i32 {
         }
     }
 
+    if unpinned > 0 && exit == 0 && known_printed.is_empty() {
+        harness_error("violating scenarios were seen but none fails again when re-run: nondeterminism that cannot be pinned on a scenario");
+    }
     // --- evidence ---------------------------------------------------------------------------------
     let mut counters: BTreeMap<String, u64> = stats.counters.clone();
     counters.entry("LEAF-FAIL_fired".into()).or_insert(0);
